@@ -43,13 +43,19 @@ Definition frankB (x : B64) : Z := frankSF (B2SF x).
 Lemma frank_inf_eq : frank_inf = 2 ^ 2100.
 Proof. reflexivity. Qed.
 
-Lemma frank_inf_big : 2 ^ 2098 < frank_inf.
-Proof. rewrite frank_inf_eq. apply Z.pow_lt_mono_r; lia. Qed.
+(* strict bound on the rank of finite floats (kept opaque so that lia never expands it) *)
+Definition frank_fin : Z := 2 ^ 2098.
 
-Lemma pow2098_pos : 0 < 2 ^ 2098.
-Proof. apply Z.pow_pos_nonneg; lia. Qed.
+Lemma frank_fin_eq : frank_fin = 2 ^ 2098.
+Proof. reflexivity. Qed.
 
-Global Opaque frank_inf.
+Lemma frank_inf_big : frank_fin < frank_inf.
+Proof. rewrite frank_inf_eq, frank_fin_eq. apply Z.pow_lt_mono_r; lia. Qed.
+
+Lemma pow2098_pos : 0 < frank_fin.
+Proof. rewrite frank_fin_eq. apply Z.pow_pos_nonneg; lia. Qed.
+
+Global Opaque frank_inf frank_fin.
 
 Lemma IZR_pow2 : forall k, 0 <= k -> IZR (2 ^ k) = bpow radix2 k.
 Proof. intros k Hk. exact (IZR_Zpower radix2 k Hk). Qed.
@@ -76,12 +82,12 @@ Proof.
 Qed.
 
 Lemma frankB_finite_bound : forall x : B64, is_finite x = true ->
-  - 2 ^ 2098 < frankB x < 2 ^ 2098.
+  - frank_fin < frankB x < frank_fin.
 Proof.
   pose proof pow2098_pos as Hp.
   intros [s|s| |s m e Hb] Hf; try discriminate Hf; unfold frankB; cbn [B2SF frankSF].
   - lia.
-  - destruct (bounded_facts m e Hb) as [He Hm].
+  - destruct (bounded_facts m e Hb) as [He Hm]. rewrite <- frank_fin_eq in Hm.
     assert (0 < Zpos m * 2 ^ (e + 1074)).
     { apply Z.mul_pos_pos; [lia|]. apply Z.pow_pos_nonneg; lia. }
     destruct s; unfold cond_Zopp.
@@ -151,8 +157,9 @@ Qed.
 (* Comparisons on binary_float, all operands                                                   *)
 (* ------------------------------------------------------------------------------------------ *)
 
-Ltac cmp_cases x y :=
+Ltac cmp_cases x y Fx Fy :=
   destruct x as [sx|sx| |sx mx ex Hx]; destruct y as [sy|sy| |sy my ey Hy];
+  try discriminate Fx; try discriminate Fy; clear Fx Fy;
   try (pose proof (frankB_finite_bound (B754_finite sx mx ex Hx) eq_refl) as Hbx;
        unfold frankB in Hbx; cbn [B2SF frankSF] in Hbx);
   try (pose proof (frankB_finite_bound (B754_finite sy my ey Hy) eq_refl) as Hby;
@@ -163,7 +170,6 @@ Ltac cmp_cases x y :=
   try (set (ry := (cond_Zopp sy (Zpos my) * _)) in *; clearbody ry);
   pose proof frank_inf_big; pose proof pow2098_pos;
   try destruct sx; try destruct sy; cbv beta iota;
-  try solve [ exfalso; discriminate ];
   (split;
    [ let Hc := fresh "Hc" in
      intro Hc; try discriminate Hc; (split; [reflexivity | split; [reflexivity | lia]])
@@ -177,9 +183,9 @@ Proof.
   intros x y.
   destruct (is_finite x) eqn:Fx; destruct (is_finite y) eqn:Fy.
   - rewrite (Bltb_fin x y Fx Fy), (finite_not_nan x Fx), (finite_not_nan y Fy). tauto.
-  - cmp_cases x y; discriminate.
-  - cmp_cases x y; discriminate.
-  - cmp_cases x y; discriminate.
+  - cmp_cases x y Fx Fy.
+  - cmp_cases x y Fx Fy.
+  - cmp_cases x y Fx Fy.
 Qed.
 
 Lemma Bleb_iff : forall x y : B64,
@@ -188,9 +194,9 @@ Proof.
   intros x y.
   destruct (is_finite x) eqn:Fx; destruct (is_finite y) eqn:Fy.
   - rewrite (Bleb_fin x y Fx Fy), (finite_not_nan x Fx), (finite_not_nan y Fy). tauto.
-  - cmp_cases x y; discriminate.
-  - cmp_cases x y; discriminate.
-  - cmp_cases x y; discriminate.
+  - cmp_cases x y Fx Fy.
+  - cmp_cases x y Fx Fy.
+  - cmp_cases x y Fx Fy.
 Qed.
 
 Lemma Beqb_iff : forall x y : B64,
@@ -199,7 +205,157 @@ Proof.
   intros x y.
   destruct (is_finite x) eqn:Fx; destruct (is_finite y) eqn:Fy.
   - rewrite (Beqb_fin x y Fx Fy), (finite_not_nan x Fx), (finite_not_nan y Fy). tauto.
-  - cmp_cases x y; discriminate.
-  - cmp_cases x y; discriminate.
-  - cmp_cases x y; discriminate.
+  - cmp_cases x y Fx Fy.
+  - cmp_cases x y Fx Fy.
+  - cmp_cases x y Fx Fy.
 Qed.
+
+(* ------------------------------------------------------------------------------------------ *)
+(* Primitive floats                                                                            *)
+(* ------------------------------------------------------------------------------------------ *)
+
+Lemma frank_Prim2B : forall x : PrimFloat.float, frank x = frankB (FP.Prim2B x).
+Proof. intros x. unfold frank, frankB. rewrite FP.B2SF_Prim2B. reflexivity. Qed.
+
+Theorem ltb_iff : forall a b : PrimFloat.float,
+  PrimFloat.ltb a b = true <->
+  PrimFloat.is_nan a = false /\ PrimFloat.is_nan b = false /\ frank a < frank b.
+Proof.
+  intros a b. rewrite FP.ltb_equiv, !FP.is_nan_equiv, !frank_Prim2B. apply Bltb_iff.
+Qed.
+
+Theorem leb_iff : forall a b : PrimFloat.float,
+  PrimFloat.leb a b = true <->
+  PrimFloat.is_nan a = false /\ PrimFloat.is_nan b = false /\ frank a <= frank b.
+Proof.
+  intros a b. rewrite FP.leb_equiv, !FP.is_nan_equiv, !frank_Prim2B. apply Bleb_iff.
+Qed.
+
+Theorem eqb_iff : forall a b : PrimFloat.float,
+  PrimFloat.eqb a b = true <->
+  PrimFloat.is_nan a = false /\ PrimFloat.is_nan b = false /\ frank a = frank b.
+Proof.
+  intros a b. rewrite FP.eqb_equiv, !FP.is_nan_equiv, !frank_Prim2B. apply Beqb_iff.
+Qed.
+
+Lemma not_true_false : forall b : bool, (b = true -> False) -> b = false.
+Proof. intros [|] H; [exfalso; apply H|]; reflexivity. Qed.
+
+(* ---- item 2 : NaN is unordered and unequal ---- *)
+
+Lemma ltb_nan_l : forall a x, PrimFloat.is_nan a = true -> PrimFloat.ltb a x = false.
+Proof. intros a x Ha. apply not_true_false. intros H. apply ltb_iff in H. destruct H as (H & _). congruence. Qed.
+
+Lemma ltb_nan_r : forall a x, PrimFloat.is_nan a = true -> PrimFloat.ltb x a = false.
+Proof. intros a x Ha. apply not_true_false. intros H. apply ltb_iff in H. destruct H as (_ & H & _). congruence. Qed.
+
+Lemma leb_nan_l : forall a x, PrimFloat.is_nan a = true -> PrimFloat.leb a x = false.
+Proof. intros a x Ha. apply not_true_false. intros H. apply leb_iff in H. destruct H as (H & _). congruence. Qed.
+
+Lemma leb_nan_r : forall a x, PrimFloat.is_nan a = true -> PrimFloat.leb x a = false.
+Proof. intros a x Ha. apply not_true_false. intros H. apply leb_iff in H. destruct H as (_ & H & _). congruence. Qed.
+
+Lemma eqb_nan_l : forall a x, PrimFloat.is_nan a = true -> PrimFloat.eqb a x = false.
+Proof. intros a x Ha. apply not_true_false. intros H. apply eqb_iff in H. destruct H as (H & _). congruence. Qed.
+
+Lemma eqb_nan_r : forall a x, PrimFloat.is_nan a = true -> PrimFloat.eqb x a = false.
+Proof. intros a x Ha. apply not_true_false. intros H. apply eqb_iff in H. destruct H as (_ & H & _). congruence. Qed.
+
+(* ---- item 1 : strict order laws, all floats ---- *)
+
+Lemma ltb_irrefl : forall a, PrimFloat.ltb a a = false.
+Proof. intros a. apply not_true_false. intros H. apply ltb_iff in H. lia. Qed.
+
+Lemma ltb_trans : forall a b c,
+  PrimFloat.ltb a b = true -> PrimFloat.ltb b c = true -> PrimFloat.ltb a c = true.
+Proof.
+  intros a b c H1 H2. apply ltb_iff in H1. apply ltb_iff in H2. apply ltb_iff.
+  destruct H1 as (Ha & Hb & H1). destruct H2 as (_ & Hc & H2).
+  split; [exact Ha|]. split; [exact Hc|]. lia.
+Qed.
+
+#[global] Instance NumLawsF : NumLaws PrimFloat.float.
+Proof. split; simpl; [exact ltb_irrefl | exact ltb_trans]. Qed.
+
+(* ---- items 3, 4 ---- *)
+
+Lemma ltb_leb_false : forall a b, PrimFloat.ltb a b = true -> PrimFloat.leb b a = false.
+Proof.
+  intros a b H. apply not_true_false. intros H'. apply ltb_iff in H. apply leb_iff in H'. lia.
+Qed.
+
+Lemma leb_total_nonan : forall a b,
+  PrimFloat.is_nan a = false -> PrimFloat.is_nan b = false ->
+  PrimFloat.leb a b = true \/ PrimFloat.ltb b a = true.
+Proof.
+  intros a b Ha Hb. destruct (Z_le_gt_dec (frank a) (frank b)) as [H|H].
+  - left. apply leb_iff. auto.
+  - right. apply ltb_iff. split; [exact Hb|]. split; [exact Ha|]. lia.
+Qed.
+
+Lemma ltb_asym : forall a b, PrimFloat.ltb a b = true -> PrimFloat.ltb b a = false.
+Proof.
+  intros a b H. apply not_true_false. intros H'. apply ltb_iff in H. apply ltb_iff in H'. lia.
+Qed.
+
+(* further consequences, used by clients *)
+Lemma ltb_leb : forall a b, PrimFloat.ltb a b = true -> PrimFloat.leb a b = true.
+Proof. intros a b H. apply ltb_iff in H. apply leb_iff. intuition lia. Qed.
+
+Lemma leb_ltb_false : forall a b, PrimFloat.leb a b = true -> PrimFloat.ltb b a = false.
+Proof.
+  intros a b H. apply not_true_false. intros H'. apply leb_iff in H. apply ltb_iff in H'. lia.
+Qed.
+
+Lemma ltb_total_nonan : forall a b,
+  PrimFloat.is_nan a = false -> PrimFloat.is_nan b = false ->
+  PrimFloat.ltb a b = true \/ PrimFloat.eqb a b = true \/ PrimFloat.ltb b a = true.
+Proof.
+  intros a b Ha Hb. destruct (Z.lt_trichotomy (frank a) (frank b)) as [H|[H|H]].
+  - left. apply ltb_iff. auto.
+  - right; left. apply eqb_iff. auto.
+  - right; right. apply ltb_iff. auto.
+Qed.
+
+(* ---- item 5 : the rank ---- *)
+
+Lemma frank_lt : forall a b, PrimFloat.ltb a b = true -> frank a < frank b.
+Proof. intros a b H. apply ltb_iff in H. lia. Qed.
+
+Lemma frank_le : forall a b, PrimFloat.leb a b = true -> frank a <= frank b.
+Proof. intros a b H. apply leb_iff in H. lia. Qed.
+
+Lemma frank_bounded : forall a, - 2 ^ 2100 <= frank a <= 2 ^ 2100.
+Proof.
+  intros a. rewrite frank_Prim2B, <- frank_inf_eq.
+  pose proof frank_inf_big as Hbig. pose proof pow2098_pos as Hpos.
+  destruct (is_finite (FP.Prim2B a)) eqn:Fa.
+  - pose proof (frankB_finite_bound _ Fa). lia.
+  - destruct (FP.Prim2B a) as [s|s| |s m e Hb]; try discriminate Fa;
+      unfold frankB; cbn [B2SF frankSF]; [destruct s|]; lia.
+Qed.
+
+(* no infinite strictly decreasing / increasing chain of floats *)
+Theorem ltb_wf : well_founded (fun a b : PrimFloat.float => PrimFloat.ltb a b = true).
+Proof.
+  apply (wf_incl _ _ (fun a b => - 2 ^ 2100 <= frank a < frank b)).
+  - intros a b H. split; [apply frank_bounded | apply frank_lt; exact H].
+  - apply (wf_inverse_image _ _ (fun x y => - 2 ^ 2100 <= x < y) frank).
+    apply Z.lt_wf.
+Qed.
+
+Theorem gtb_wf : well_founded (fun a b : PrimFloat.float => PrimFloat.ltb b a = true).
+Proof.
+  apply (wf_incl _ _ (fun a b => - 2 ^ 2100 <= - frank a < - frank b)).
+  - intros a b H. pose proof (frank_bounded a). apply frank_lt in H. lia.
+  - apply (wf_inverse_image _ _ (fun x y => - 2 ^ 2100 <= x < y) (fun a => - frank a)).
+    apply Z.lt_wf.
+Qed.
+
+(* sanity: the rank is computable *)
+Goal frank 1%float = 2 ^ 1074 /\ frank (-0)%float = 0 /\ frank neg_infinity = - 2 ^ 2100
+     /\ frank 0x1p-1074%float = 1.
+Proof. repeat split; vm_compute; reflexivity. Qed.
+
+Print Assumptions NumLawsF.
+Print Assumptions frank_lt.
